@@ -504,7 +504,18 @@ impl Callbacks for Cb {
                             }
                         }
                     }
-                    consts.push(obj(vec![("def", esc(&cx.path(id.to_def_id()))), ("ty", cx.ty(t, 2)), ("int", opt(val))]));
+                    let mut sval: Option<String> = None;
+                    if let TyKind::Ref(_, inner, _) = t.kind() {
+                        if inner.is_str() {
+                            if let Ok(rustc_middle::mir::ConstValue::Slice { alloc_id, meta }) = tcx.const_eval_poly(id.to_def_id()) {
+                                if let Some(rustc_middle::mir::interpret::GlobalAlloc::Memory(mem)) = tcx.try_get_global_alloc(alloc_id) {
+                                    let bytes = mem.inner().inspect_with_uninit_and_ptr_outside_interpreter(0..(meta as usize));
+                                    sval = Some(esc(&String::from_utf8_lossy(bytes)));
+                                }
+                            }
+                        }
+                    }
+                    consts.push(obj(vec![("def", esc(&cx.path(id.to_def_id()))), ("ty", cx.ty(t, 2)), ("int", opt(val)), ("str", opt(sval))]));
                 }
                 DefKind::Static { .. } => {
                     let t = tcx.type_of(id.to_def_id()).instantiate_identity().skip_norm_wip();
